@@ -35,6 +35,10 @@ func runC16(c *engine.Ctx) {
 		{"retry", func() { c16RetryBound(c, "R12") }}, {"index", func() { c16IndexBounds(c, "R13") }},
 		{"dropped", func() { checkDroppedErrors(c, "R14", "*") }}, {"lost", func() { checkLostErrors(c, "R15", "*") }}, {"stale", func() { checkStaleErrReturns(c, "R16", "*") }},
 		{"rawenum", func() { checkRawEnumCompare(c, "R17") }},
+		{"checkact", func() { c16CheckThenAct(c, "R18") }},
+		{"divlen", func() { c16DivByLen(c, "R19") }},
+		{"decodeinto", func() { c16DecodeInto(c, "R20") }},
+		{"assert", func() { c16ImpossibleAssert(c, "R21") }},
 	}
 	for _, s := range steps {
 		t0 := time.Now()
@@ -247,14 +251,16 @@ func c16MapsRule(c *engine.Ctx, li *engine.LockInfo, rule string) {
 		})
 	}
 	c.Note("structs with a mutex and a map field: %d; map fields accessed: %d; reads of containers stored in them: %d", structs, len(perField), nElem)
-	c.Floor(len(perField), 20)
+	c.Floor(len(perField), 10)
 }
 
 // ---- R2 ----
 
-func c16AllocSizes(c *engine.Ctx) {
+func c16AllocSizes(c *engine.Ctx) { c16AllocSizesRule(c, "R2") }
+
+func c16AllocSizesRule(c *engine.Ctx, rule string) {
 	p := c.P
-	c.Rule("R2", "every make(chan|slice|map, n) whose size derives from a field of a protocol message is established non-negative by a comparison on every path (clamp or early return)")
+	c.Rule(rule, "every make(chan|slice|map, n) whose size derives from a field of a protocol message, or from an integer decoded off the wire with encoding/binary, is established non-negative by a comparison on every path (clamp or early return)")
 	msgPkg := p.Pkg("pkg/msg")
 	isMsgField := func(fv *types.Var) bool {
 		return fv != nil && fv.Pkg() != nil && msgPkg != nil && fv.Pkg() == msgPkg.Types
@@ -286,11 +292,23 @@ func c16AllocSizes(c *engine.Ctx) {
 					mf = fv
 				}
 			}
+			mfName := ""
+			if mf != nil {
+				mfName = mf.Name()
+			}
+			if !fromMsg {
+				// … or from an integer decoded off the wire (a hand-rolled frame reader): same obligation
+				for o := range src.Calls {
+					if o.Pkg() != nil && o.Pkg().Path() == "encoding/binary" {
+						fromMsg, mfName = true, "binary."+o.Name()
+					}
+				}
+			}
 			if !fromMsg {
 				return
 			}
 			n++
-			key := p.FuncName(f) + ">make:" + mf.Name()
+			key := p.FuncName(f) + ">make:" + mfName
 			c.AllPaths(key, engine.PathCheck{Fn: f, Sink: engine.Is(in), Track: []ssa.Value{size}, Pred: func(st *engine.PathState) string {
 				// collect the non-constant leaves of the size expression on this path
 				var leaves []ssa.Value
@@ -343,11 +361,11 @@ func c16AllocSizes(c *engine.Ctx) {
 						}
 					}
 					if !bounded {
-						return "allocation size depends on message field " + mf.Name() + " (" + engine.Describe(lv) + ") with no lower bound on this path: a negative value panics in make()"
+						return "allocation size depends on message field " + mfName + " (" + engine.Describe(lv) + ") with no lower bound on this path: a negative value panics in make()"
 					}
 				}
 				return ""
-			}}, "size derived from %s is bounded below", mf.Name())
+			}}, "size derived from %s is bounded below", mfName)
 		})
 	}
 	c.Floor(n, 1)
@@ -455,7 +473,7 @@ func c16Handlers(c *engine.Ctx) {
 		c.Check(bad == "", key, r.site.Pos(), 1+nAssert, []string{"handler " + p.FuncName(r.handler)},
 			"handler %s registered for %s asserts its parameter to the same type (found %s): a mismatch panics the session's read loop", p.FuncName(r.handler), typeShort(r.msgT), bad)
 	}
-	c.Floor(len(regs), 10)
+	c.Floor(len(regs), 5)
 
 	c.Rule("R8", "handlers that can wait for seconds (they reach a channel receive/select with timeout, time.Sleep, or a connection dial) are registered through msg.AsyncHandler so that the session's read loop keeps running")
 	n := 0
@@ -603,7 +621,7 @@ func c16Encodable(c *engine.Ctx) {
 				"sent value is a pointer to a registered message (offending: %s)", strings.Join(bad, ","))
 		}
 	}
-	c.Floor(n, 35)
+	c.Floor(n, 18)
 }
 
 // ---- R9 ----
@@ -673,7 +691,7 @@ func c16LockBalance(c *engine.Ctx, li *engine.LockInfo) {
 		n++
 		c.Hold(p.FuncName(f)+">balanced", f.Pos(), len(locks), nil, "locks taken by the function are released on every exit")
 	}
-	c.Floor(n, 60)
+	c.Floor(n, 30)
 }
 
 // ---- R10 ----
@@ -861,7 +879,7 @@ func c16ErrorPathDerefRule(c *engine.Ctx, rule string) {
 			}
 		})
 	}
-	c.Floor(n, 10)
+	c.Floor(n, 5)
 }
 
 // freeVarDerefed: inside the closure the captured pointer variable is loaded and its fields are selected.
@@ -1322,4 +1340,277 @@ func checkRawEnumCompare(c *engine.Ctx, rule string) {
 		})
 	}
 	c.Floor(n, 2)
+}
+
+// c16CheckThenAct: "look the entry up, then replace it" on a lock-guarded map is one critical section. A function that
+// reads a map field of a mutex-carrying struct and later writes the same field must not release the mutex in between:
+// two callers would both see the old entry and both act on it (two re-logins both "replace" the same old session and
+// both stay alive). The rule looks at every (read, write) pair of one map field inside one function and fails when some
+// path from the read to the write passes an Unlock / RUnlock call.
+func c16CheckThenAct(c *engine.Ctx, rule string) {
+	c.Rule(rule, "in a function that reads and then writes the same map field of a struct with a mutex, no path from the read to the write releases a mutex (the lookup and the update are one critical section)")
+	p := c.P
+	isUnlock := func(in ssa.Instruction) bool {
+		call, ok := in.(*ssa.Call)
+		if !ok {
+			return false
+		}
+		o := engine.CalleeObj(call)
+		if o == nil || o.Pkg() == nil || o.Pkg().Path() != "sync" {
+			return false
+		}
+		return o.Name() == "Unlock" || o.Name() == "RUnlock"
+	}
+	mapField := func(v ssa.Value) *types.Var {
+		fv, _ := engine.LoadedField(v)
+		if fv == nil {
+			return nil
+		}
+		if _, ok := fv.Type().Underlying().(*types.Map); !ok {
+			return nil
+		}
+		return fv
+	}
+	n := 0
+	for _, f := range p.RepoFuncs() {
+		hasUnlock := false
+		reads := map[*types.Var][]ssa.Instruction{}
+		writes := map[*types.Var][]ssa.Instruction{}
+		engine.ForEachInstr(f, func(in ssa.Instruction) {
+			if isUnlock(in) {
+				hasUnlock = true
+			}
+			switch x := in.(type) {
+			case *ssa.Lookup:
+				if fv := mapField(x.X); fv != nil {
+					reads[fv] = append(reads[fv], in)
+				}
+			case *ssa.MapUpdate:
+				if fv := mapField(x.Map); fv != nil {
+					writes[fv] = append(writes[fv], in)
+				}
+			case ssa.CallInstruction:
+				if b, ok := x.Common().Value.(*ssa.Builtin); ok && b.Name() == "delete" {
+					if fv := mapField(x.Common().Args[0]); fv != nil {
+						writes[fv] = append(writes[fv], in)
+					}
+				}
+			}
+		})
+		for fv, rs := range reads {
+			ws := writes[fv]
+			if len(ws) == 0 {
+				continue
+			}
+			n++
+			if !hasUnlock {
+				c.Hold(fmt.Sprintf("%s>%s", p.FuncName(f), fv.Name()), f.Pos(), 1, nil, "read and write of %s in one function without an explicit unlock (deferred unlock or caller's lock)", fv.Name())
+				continue
+			}
+			bad := ""
+			var badPos token.Pos
+			for _, r := range rs {
+				for _, w := range ws {
+					if !engine.InstrReaches(r, w) {
+						continue
+					}
+					why := engine.QuietPaths(engine.PathCheck{Fn: f, From: r, Sink: engine.Is(w),
+						Event: func(in ssa.Instruction) string {
+							if isUnlock(in) {
+								return "unlock"
+							}
+							return ""
+						},
+						Pred: func(st *engine.PathState) string {
+							if st.HasEvent("unlock") {
+								return "a mutex is released between the lookup and the update of " + fv.Name()
+							}
+							return ""
+						}})
+					if why != "" && bad == "" {
+						bad, badPos = why, w.Pos()
+					}
+				}
+			}
+			key := fmt.Sprintf("%s>%s", p.FuncName(f), fv.Name())
+			if bad != "" {
+				c.Violate(key, badPos, nil, "%s: two callers can both act on the entry they both saw", bad)
+			} else {
+				c.Hold(key, f.Pos(), len(rs)*len(ws), nil, "lookup and update of %s form one critical section", fv.Name())
+			}
+		}
+	}
+	c.Floor(n, 5)
+}
+
+// c16DivByLen: `x % len(s)` and `x / len(s)` panic (integer divide by zero) when s is empty — in a goroutine without
+// recover that takes the process down. Every remainder / quotient whose divisor is a length must be reached only on paths
+// that established the collection non-empty (len(s) > 0, len(s) != 0, or a loop over s).
+func c16DivByLen(c *engine.Ctx, rule string) {
+	c.Rule(rule, "every `% len(x)` / `/ len(x)` is reached only on paths where len(x) was found non-zero")
+	p := c.P
+	lenArg := func(v ssa.Value) ssa.Value {
+		v = engine.Unwrap(v)
+		for i := 0; i < 3; i++ {
+			if cv, ok := v.(*ssa.Convert); ok {
+				v = cv.X
+				continue
+			}
+			break
+		}
+		call, ok := v.(*ssa.Call)
+		if !ok {
+			return nil
+		}
+		if b, ok := call.Call.Value.(*ssa.Builtin); ok && b.Name() == "len" {
+			return call.Call.Args[0]
+		}
+		return nil
+	}
+	n := 0
+	for _, f := range p.RepoFuncs() {
+		f := f
+		engine.ForEachInstr(f, func(in ssa.Instruction) {
+			bo, ok := in.(*ssa.BinOp)
+			if !ok || (bo.Op != token.REM && bo.Op != token.QUO) {
+				return
+			}
+			coll := lenArg(bo.Y)
+			if coll == nil {
+				return
+			}
+			n++
+			isLenOf := func(v ssa.Value) bool {
+				a := lenArg(v)
+				return a != nil && (a == coll || engine.SameExpr(a, coll))
+			}
+			isZero := func(v ssa.Value) bool { z, ok := engine.ConstInt(v); return ok && z == 0 }
+			c.AllPaths(fmt.Sprintf("%s>div-by-len#%d", p.FuncName(f), n), engine.PathCheck{Fn: f, Sink: engine.Is(in), KeepLoopFacts: true, Pred: func(st *engine.PathState) string {
+				// len(x) == 0 is false, or len(x) > 0 / >= 1 / 0 < len(x)
+				if eq, k := st.Equal(isLenOf, isZero); k && !eq {
+					return ""
+				}
+				if st.Ordered(func(x ssa.Value, op token.Token, y ssa.Value) bool {
+					if !isLenOf(x) {
+						return false
+					}
+					z, isC := engine.ConstInt(y)
+					if !isC {
+						return false
+					}
+					return (op == token.GTR && z >= 0) || (op == token.GEQ && z >= 1)
+				}) {
+					return ""
+				}
+				return "the divisor len(" + engine.Describe(coll) + ") may be zero on this path: integer divide by zero"
+			}}, "divisor length is non-zero on every path")
+		})
+	}
+	c.Floor(n, 2)
+}
+
+// c16DecodeInto: base64 / hex Decode(dst, src) write DecodedLen(len(src)) bytes into dst and panic (index out of range)
+// when dst is shorter; src is chosen by the peer. A destination that was not sized from the source (a pooled, fixed
+// buffer) turns an oversized payload into a process crash in goroutines that have no recover.
+func c16DecodeInto(c *engine.Ctx, rule string) {
+	c.Rule(rule, "every base64/hex Decode(dst, src) and Encode(dst, src) writes into a destination allocated with the matching DecodedLen/EncodedLen of that source (the allocating forms DecodeString / EncodeToString / AppendDecode are always fine)")
+	p := c.P
+	seen, into := 0, 0
+	for _, f := range p.RepoFuncs() {
+		engine.ForEachInstr(f, func(in ssa.Instruction) {
+			call, ok := in.(*ssa.Call)
+			if !ok {
+				return
+			}
+			o := engine.CalleeObj(call)
+			if o == nil || o.Pkg() == nil || !(o.Pkg().Path() == "encoding/base64" || o.Pkg().Path() == "encoding/hex") {
+				return
+			}
+			seen++
+			if o.Name() != "Decode" && o.Name() != "Encode" {
+				return
+			}
+			args := engine.CallArgs(call)
+			var dst ssa.Value
+			for _, a := range args {
+				if _, isSlice := a.Type().Underlying().(*types.Slice); isSlice {
+					dst = a
+					break
+				}
+			}
+			if dst == nil {
+				return
+			}
+			into++
+			src := engine.DeepSources(p, dst)
+			sized := false
+			for k := range src.Calls {
+				if k.Pkg() != nil && k.Pkg().Path() == o.Pkg().Path() && (k.Name() == "DecodedLen" || k.Name() == "EncodedLen") {
+					sized = true
+				}
+			}
+			c.Check(sized, fmt.Sprintf("%s>%s-into#%d", p.FuncName(f), o.Name(), into), in.Pos(), len(src.Values), []string{"destination: " + src.Summary()},
+				"the destination of %s is sized from the source with %sdLen", o.Name(), o.Name())
+		})
+	}
+	c.Check(seen >= 1, "decode-into:codec-calls-seen", token.NoPos, seen, nil, "positive control: %d base64/hex calls examined, %d of them write into a caller-supplied buffer", seen, into)
+	c.Floor(seen, 1)
+}
+
+// c16ImpossibleAssert: a type assertion to an interface whose operand can only ever hold concrete types that do not
+// implement it always fails — the code behind it (hijack the connection, flush, …) is dead and its failure branch is what
+// every request gets. Typical cause: a value is wrapped (a recording ResponseWriter) and the wrapper forwards only part of
+// the wrapped value's method set.
+func c16ImpossibleAssert(c *engine.Ctx, rule string, pkgs ...string) {
+	c.Rule(rule, "no interface type assertion has an operand that, traced to its sources, is always a concrete type of this module that lacks the asserted methods")
+	p := c.P
+	n := 0
+	for _, f := range p.RepoFuncs() {
+		if f.Pkg == nil {
+			continue
+		}
+		if len(pkgs) > 0 {
+			rel := strings.TrimPrefix(f.Pkg.Pkg.Path(), engine.ModPath+"/")
+			okp := false
+			for _, q := range pkgs {
+				if rel == q || strings.HasPrefix(rel, q+"/") {
+					okp = true
+				}
+			}
+			if !okp {
+				continue
+			}
+		}
+		engine.ForEachInstr(f, func(in ssa.Instruction) {
+			ta, ok := in.(*ssa.TypeAssert)
+			if !ok {
+				return
+			}
+			iface, ok := ta.AssertedType.Underlying().(*types.Interface)
+			if !ok || iface.NumMethods() == 0 {
+				return
+			}
+			n++
+			dts, complete := engine.DynamicTypes(p, ta.X)
+			if !complete {
+				return // something this analysis cannot enumerate may flow in
+			}
+			var lacking []string
+			good := 0
+			for _, t := range dts {
+				if types.Implements(t, iface) {
+					good++
+				} else {
+					lacking = append(lacking, types.TypeString(t, nil))
+				}
+			}
+			if good == 0 && len(lacking) > 0 {
+				sort.Strings(lacking)
+				c.Violate(fmt.Sprintf("%s>assert#%s", p.FuncName(f), types.TypeString(ta.AssertedType, nil)), in.Pos(), lacking,
+					"the asserted value is always one of %s, none of which implements %s: the assertion can never succeed", strings.Join(lacking, ", "), types.TypeString(ta.AssertedType, nil))
+			}
+		})
+	}
+	c.Check(n >= 1, "impossible-assert:seen", token.NoPos, n, nil, "positive control: %d interface assertions examined", n)
+	c.Floor(n, 1)
 }
